@@ -289,7 +289,7 @@ func RunC12(r *core.Run) {
 	r.Rule = "case = a history on ONE parser object: op1 reset op2 reset ... (2..8 ops), op = (input, cut schedule, abandon point: complete / suspended mid-token / failed), reset in {Reset, Init, Reset+Init} (message objects also: Init with other arrays, built-in <-> caller supplied, header arrays up to 65 entries); every op after a reset is mirrored on a NEW object with arrays of the same capacity and every (verdict, offset) plus the definitive public view must agree; non-trivial = an op after at least one reset reached a definitive verdict and was compared; distinct by hash of the history"
 	r.Assume = []string{"'same caller-supplied arrays' = a new object gets fresh zeroed arrays of the same capacity", "PPAIs.Init, PContacts.Init(vals), PHdrVals.Init(vals), URIParamsLst.Init, URIHdrsLst.Init are the init operations; other objects only have Reset"}
 	corpus := loadCorpus()
-	n := r.Pick(800000, 12000000)
+	n := r.Pick(800000, 48000000)
 	r.Stage("histories", n, func(w *core.Worker, idx int64) {
 		rr := core.NewRand(r.Seed, 0xC12, 1, uint64(idx))
 		p := Parsers[rr.Intn(len(Parsers)-1)] // not SkipQuoted (stateless)
@@ -343,7 +343,7 @@ func RunC12(r *core.Run) {
 		}
 	})
 	// message objects re-initialised with OTHER arrays between the steps (built-in <-> caller supplied)
-	r.Stage("histories/init-with-other-arrays", r.Pick(100000, 3000000), func(w *core.Worker, idx int64) {
+	r.Stage("histories/init-with-other-arrays", r.Pick(100000, 12000000), func(w *core.Worker, idx int64) {
 		rr := core.NewRand(r.Seed, 0xC12, 5, uint64(idx))
 		p := Parsers[0]
 		steps := rr.Range(2, 6)
@@ -440,7 +440,7 @@ func RunC12(r *core.Run) {
 	st.Exhaustive = true
 	st.Space = fmt.Sprintf("%d (parser, input A, input B, capacities) rows x every abandon point 0..len(A) x {Reset, Init, Reset+Init} x both orders; after the reset B is parsed one-shot, reset again, and A is parsed with every-prefix resumption", len(pairs))
 	// parsed URI: Reset makes it new
-	r.Stage("uri-reset", r.Pick(200000, 3000000), func(w *core.Worker, idx int64) {
+	r.Stage("uri-reset", r.Pick(200000, 12000000), func(w *core.Worker, idx int64) {
 		rr := core.NewRand(r.Seed, 0xC12, 3, uint64(idx))
 		a := []byte(gen.URI(rr).String())
 		b := []byte(gen.URI(rr).String())
